@@ -92,3 +92,16 @@ Example C12_alphabet_instance :
   alphabet_parse 4 [228; 24; 0; 0; 0; 0; 0; 0; 0; 24; 0; 0; 0; 0; 0; 0; 0; 0; 0; 0; 0; 0; 0; 0; 0; 0; 4] = AErrSize /\
   alphabet_parse 256 [228; 24; 0] = APanic.
 Proof. vm_compute. repeat split; reflexivity. Qed.
+
+(* ---------- the NONE codec (NullEntropyCodec.go) ---------- *)
+From KV Require Import Proofs.NoneCodecProofs.
+(* every block of bytes of any length (arrays of at most 2^23 bytes), written anywhere in a stream with anything behind it,
+   comes back exactly, and exactly its bits are consumed *)
+Theorem C12_none_codec_roundtrip : forall wbuf rbuf sched b rest,
+  bytes_ok b -> 40 <= wbuf -> wbuf mod 8 = 0 -> 0 < rbuf -> rbuf mod 8 = 0 -> Forall aop_ok rest ->
+  let ops := map conv (null_chunks (nfuel b) b) in
+  exists s1 s2 s', run_aops (new_obs wbuf) (ops ++ rest) = (s1, false) /\ close healthy s1 = (s2, false) /\
+    null_read (nfuel b) (new_ibs rbuf (mkSrc (o_out s2) sched None 0)) (N.of_nat (length b)) [] = (s', Some b) /\
+    run_arops s' (arops_of rest) = avals_of rest.
+Proof. exact none_codec_roundtrip. Qed.
+Print Assumptions C12_none_codec_roundtrip.
